@@ -9,6 +9,7 @@ import (
 	"fmt"
 	"math"
 	"os"
+	"strings"
 	"time"
 
 	modbus "github.com/aldas/go-modbus-client"
@@ -248,7 +249,25 @@ func run(tier string, shard, nsh int, res *ev.Result) {
 				c.Choices = x.Choices()
 				// the run without hooks replays the same choice sequence
 				var wo clientx.Run
-				explore.Replay(func(y *explore.Ctx) { wo = runOne(sc, base, y, false) }, c.Choices)
+				diverged := ""
+				func() {
+					defer func() {
+						if rec := recover(); rec != nil {
+							diverged = fmt.Sprint(rec)
+							if !strings.Contains(diverged, "replay divergence") {
+								panic(rec)
+							}
+						}
+					}()
+					explore.Replay(func(y *explore.Ctx) { wo = runOne(sc, base, y, false) }, c.Choices)
+				}()
+				if diverged != "" {
+					// the client without hooks did not even make the same transport calls (another buffer size, another
+					// number of reads) under the same transport answers: installing hooks changes what the client does
+					res.Violate(ev.Violation{Check: "hooks", Kind: "hooks-change-transport-calls", Attrs: map[string]any{"client": sc.Kind.String()},
+						Msg: fmt.Sprintf("%s choices=%v: with hooks installed the client made transport calls that the client without hooks, given the same answers, does not make (%s)", sc.Name, c.Choices, diverged), Case: c})
+					return
+				}
 				judge(sc, with, wo, c, res)
 				if len(with.Hooks) > 2 {
 					nontrivial++
